@@ -6,12 +6,25 @@ import ast, os, sys, json
 sys.path.insert(0, os.path.dirname(os.path.dirname(os.path.abspath(__file__))))
 import coverage
 repo = os.environ.get('FXPV_REPO', '/repo')
-cov = coverage.Coverage(data_file=None, include=[repo + '/fxpmath/*'], config_file=False)
-cov.start()
-from fxpv import runner, harness
-reg = runner.load_contracts()
-N = int(sys.argv[1]) if len(sys.argv) > 1 else 25
-for name, c in sorted(reg.items()):
+SHARD = os.environ.get('COV_SHARD')          # "i/n": run only every n-th contract, write a data file, no report
+OUT = os.environ.get('COV_DIR', '/tmp/cov')
+if len(sys.argv) > 1 and sys.argv[1] == 'combine':
+    cov = coverage.Coverage(data_file=os.path.join(OUT, 'combined'), include=[repo + '/fxpmath/*'], config_file=False)
+    cov.combine([os.path.join(OUT, f) for f in os.listdir(OUT) if f.startswith('shard.')], keep=True)
+    data = cov.get_data()
+    reg = {}
+else:
+    cov = coverage.Coverage(data_file=(os.path.join(OUT, 'shard.%s' % SHARD.replace('/', '_')) if SHARD else None), include=[repo + '/fxpmath/*'], config_file=False)
+    cov.start()
+    from fxpv import runner, harness
+    reg = runner.load_contracts()
+N = int(sys.argv[1]) if len(sys.argv) > 1 and sys.argv[1] != 'combine' else 25
+names = sorted(reg)
+if SHARD:
+    i, n = map(int, SHARD.split('/'))
+    names = names[i::n]
+for name in names:
+    c = reg[name]
     cfgs = list(c.configs('quick'))
     step = max(1, len(cfgs) // N)
     for cfg in cfgs[::step][:N]:
@@ -20,8 +33,12 @@ for name, c in sorted(reg.items()):
         except Exception as e:
             print('ERR', name, type(e).__name__, str(e)[:100])
     print('done', name, len(cfgs), file=sys.stderr)
-cov.stop()
-data = cov.get_data()
+if reg:
+    cov.stop()
+    if SHARD:
+        cov.save()
+        sys.exit(0)
+    data = cov.get_data()
 out = {}
 for fn in sorted(data.measured_files()):
     ex = set(data.lines(fn) or [])
